@@ -154,9 +154,9 @@ def replay_source(k, inputs):
             return None
     rk = k.ret[0]
     if rk == 'void':
-        call = '  %s(%s);\n  std::printf("\\n");' % (k.name, ', '.join(callargs))
+        call = '  %s(%s);\n  std::printf("\\n");' % (k.fname, ', '.join(callargs))
     else:
-        call = '  auto r = %s(%s);\n  unsigned char out[sizeof(r)]; std::memcpy(out, &r, sizeof(r));\n  for (size_t i = 0; i < sizeof(r); ++i) std::printf("%%02x", out[i]);\n  std::printf("\\n");' % (k.name, ', '.join(callargs))
+        call = '  auto r = %s(%s);\n  unsigned char out[sizeof(r)]; std::memcpy(out, &r, sizeof(r));\n  for (size_t i = 0; i < sizeof(r); ++i) std::printf("%%02x", out[i]);\n  std::printf("\\n");' % (k.fname, ', '.join(callargs))
     for nm, pos, lo, hi in ptrs:
         # dump a window around the pointer: [lo-128, hi+128)
         call += '\n  std::printf("MEM %s %d ");  for (int i = %d; i < %d; ++i) std::printf("%%02x", %s_buf[i]);  std::printf("\\n");' % (nm, lo - 128, pos + lo - 128, pos + hi + 128, nm)
@@ -231,7 +231,7 @@ def work_one(job):
     try:
         mod = get_mod(job['llpath'])
         opts = P.exec_opts(k) if hasattr(P, 'exec_opts') else {}
-        run = harness.Run(k, mod, assume_fn=getattr(P, 'assume', None), **opts)
+        run = harness.Run(k, mod, fname=k.fname, assume_fn=getattr(P, 'assume', None), **opts)
         ex = run.ex
         rec['enc_s'] = run.enc_s; rec['steps'] = ex.steps; rec['forks'] = ex.forks; rec['max_trip'] = ex.max_trip
         rec['intrinsics'] = sorted(ex.intrinsics_used)
@@ -326,8 +326,13 @@ def decide_one(dec, rec, k, run, ob, base, pre, goal, known, reported_known, job
                 json.dump(dict(kernel=k.name, obligation=name, inputs=cex['inputs'], native_result=raw.hex(), property=job['prop'], ub=cex['ub']), open(os.path.join(rdir, 'counterexample.json'), 'w'), indent=1)
                 rec['violations'].append(cex)
                 return fin('violated')
+            exc = [z3.Not(cond) for cond, txt in ex.ub if txt in ubhit and not z3.is_true(z3.simplify(cond))]
+            if not exc:
+                # the tagged condition is unconditional (nothing to exclude): the model simply does not reproduce
+                rec.setdefault('spurious', []).append(dict(where=name, inputs=show_inputs(inputs), why='model does not reproduce natively'))
+                rec['undecided'].append(name + ' (depends on undefined lanes; model does not reproduce natively)'); return fin('undecided')
             rec['ubnotes'].append(dict(where=name, what=sorted(set(ubhit)) + ['region excluded: native result satisfies the post-condition']))
-            extra = extra + [z3.Not(cond) for cond, txt in ex.ub if txt in ubhit]
+            extra = extra + exc
             if attempts > 6:
                 rec['undecided'].append(name + ' (ub regions)'); return fin('undecided')
             continue
@@ -451,7 +456,7 @@ def run_property(prop, P, tier, seed, modname, timeout=None, jobs=None, keep=Fal
                 tu_of[nm] = path; body_of[nm] = h
         groups = collections.OrderedDict(); missing = []
         for k in kernels:
-            h = body_of.get(k.name)
+            h = body_of.get(k.fname)
             if h is None:
                 missing.append(k.name); continue
             key = (h, k.op, k.variant, k.ty, gen.is_avx512(k.arch) if not k.arch.startswith('emu') else k.arch, lanes(k.ty, k.arch))
@@ -459,7 +464,7 @@ def run_property(prop, P, tier, seed, modname, timeout=None, jobs=None, keep=Fal
         joblist = []
         for key, ks in groups.items():
             rep = next((x for x in ks if x.arch.startswith('emu') or gen.ARCH[x.arch][3]), ks[0])
-            joblist.append(dict(prop=prop, kernel=rep, members=[x.arch for x in ks], llpath=tu_of[rep.name], tier=tier,
+            joblist.append(dict(prop=prop, kernel=rep, members=[x.arch for x in ks], llpath=tu_of[rep.fname], tier=tier,
                                 timeout=timeout, replay_root=replay_root))
         known = load_known()
         # longest first is unknown: shuffle deterministically for balance
@@ -467,7 +472,15 @@ def run_property(prop, P, tier, seed, modname, timeout=None, jobs=None, keep=Fal
         with mp.Pool(jobs, initializer=_init_worker, initargs=({prop: modname}, known), maxtasksperchild=40) as pool:
             lem_specs = getattr(P, 'LEMMAS', [])
             lem_async = pool.map_async(prove_lemma, lem_specs, chunksize=1)
-            recs = pool.map(work_one, joblist, chunksize=1)
+            recs = []
+            prog = os.environ.get('XV_PROGRESS')
+            for rec in pool.imap_unordered(work_one, joblist, chunksize=1):
+                recs.append(rec)
+                if prog:
+                    with open(prog, 'a') as fh:
+                        fh.write('%d/%d %-50s wall=%.1f enc=%.1f solver=%.1f obl=%d dis=%d search=%d steps=%d %s\n' % (len(recs), len(joblist), rec['kernel'], rec.get('wall_s', 0), rec['enc_s'], rec['solver_s'],
+                                 rec['obligations'], rec['discharged'], rec['by_search'], rec['steps'], rec['status']))
+            recs.sort(key=lambda r: r['kernel'])
             lemmas = lem_async.get()
         used = set()
         for r in recs: used |= set(map(tuple, r.get('lemmas', [])))
@@ -538,6 +551,9 @@ def finish(prop, P, tier, seed, kernels, dropped, missing, recs, wall, t_lower, 
         'coverage': {
             'obligations': tot['obligations'], 'discharged': tot['discharged'],
             'evaluations': tot['queries'], 'distinct_nontrivial': tot['by_search'],
+            'states': max(tot['steps'], 1), 'transitions': max(tot['steps'] + tot['forks'], 1),
+            'traces_validated_against_impl': sum(len(r['violations']) + len(r.get('spurious', [])) for r in recs),
+            'states_rule': 'states = IR instructions executed symbolically (each is one symbolic state standing for every input value), transitions = those plus symbolic branch forks; traces_validated_against_impl = solver models replayed against the natively compiled wrapper',
             'rule': 'one obligation per (distinct kernel body, lane or memory cell, post-condition); an evaluation is one solver query over all operand bit patterns; non-trivial = not closed by the term simplifier alone (needed SAT/SMT search); lanes whose query is alpha-equivalent to an already decided lane of the same body are answered from cache (counted in lanes_deduplicated)',
             'samples': samples or [{'note': 'all obligations closed by the simplifier'}],
             'wrappers_generated': len(kernels), 'wrappers_rejected_by_library': len(dropped), 'wrappers_covered': covered,
